@@ -18,9 +18,11 @@ import (
 	"math/rand"
 	"sort"
 	"testing"
+	"time"
 
 	"github.com/pingcap/log"
 	tikverr "github.com/tikv/client-go/v2/error"
+	"github.com/tikv/client-go/v2/kv"
 	"github.com/tikv/client-go/v2/testutils"
 	"github.com/tikv/client-go/v2/tikv"
 	"github.com/tikv/client-go/v2/txnkv/transaction"
@@ -31,6 +33,36 @@ import (
 
 type c07TxnSUT struct {
 	txn *transaction.KVTxn
+	r   *vrep.Report
+	n   int
+}
+
+// Lock: alternately a real pessimistic LockKeys (RPC to the mock store; the buffer gets a flags-only entry for
+// the key) and the flag set directly on the buffer.  Lock acquisition itself is not C07's business: when the
+// RPC fails the flag is set on the buffer instead and the event is counted.
+func (s *c07TxnSUT) Lock(k []byte, persistent bool) error {
+	if !persistent {
+		s.txn.GetMemBuffer().UpdateFlags(k, kv.SetPresumeKeyNotExists)
+		return nil
+	}
+	s.n++
+	if s.n%3 != 0 {
+		lockCtx := kv.NewLockCtx(s.txn.StartTS(), kv.LockNoWait, time.Now())
+		if err := s.txn.LockKeys(context.Background(), lockCtx, k); err == nil {
+			s.r.Count("lockkeys_rpc_ok", 1)
+			return nil
+		}
+		s.r.Count("lockkeys_rpc_failed", 1)
+	}
+	s.txn.GetMemBuffer().UpdateFlags(k, kv.SetKeyLocked)
+	return nil
+}
+
+func (s *c07TxnSUT) SetLocked(k, v []byte) error {
+	if err := s.Lock(k, true); err != nil {
+		return err
+	}
+	return s.txn.Set(k, v)
 }
 
 func (s *c07TxnSUT) Get(k []byte) ([]byte, bool, error) {
@@ -85,6 +117,7 @@ func (s *c07TxnSUT) Close() { _ = s.txn.Rollback() }
 
 type c07TxnWorld struct {
 	store *tikv.KVStore
+	r     *vrep.Report
 }
 
 func (w *c07TxnWorld) NewSUT(rng *rand.Rand) (c07m.SUT, error) {
@@ -94,7 +127,8 @@ func (w *c07TxnWorld) NewSUT(rng *rand.Rand) (c07m.SUT, error) {
 	}
 	// 0 and 1 mean "default" (256) inside the scanner
 	txn.GetSnapshot().SetScanBatchSize([]int{2, 2, 3, 0}[rng.Intn(4)])
-	return &c07TxnSUT{txn: txn}, nil
+	txn.SetPessimistic(true)
+	return &c07TxnSUT{txn: txn, r: w.r}, nil
 }
 
 func (w *c07TxnWorld) Close() { _ = w.store.Close() }
@@ -148,7 +182,7 @@ func c07TxnFactory(r *vrep.Report) c07m.WorldFactory {
 				return nil, err
 			}
 		}
-		return &c07TxnWorld{store: store}, nil
+		return &c07TxnWorld{store: store, r: r}, nil
 	}
 }
 
@@ -166,5 +200,8 @@ func TestVerifC07KVTxn(t *testing.T) {
 	r.Floor("cleanup_changed_view", 10)
 	r.Floor("revert_changed_view", 10)
 	r.Floor("worlds_multi_region", 3)
+	r.Floor("iter_ends_on_flags_only_entry", 30)
+	r.Floor("iter_reverse_ends_on_flags_only_entry", 10)
+	r.Floor("lockkeys_rpc_ok", 50)
 	r.Floor("sequences", vrep.Pick(300, 5000))
 }
